@@ -130,6 +130,40 @@ def shapes(rng):
     yield 'r32,m32sym', '%s, DWORD PTR some_symbol[%s]' % (r32(), r32()), None
 
 
+MEMGRID_TEMPLATES = [('lea', 'r32,m0', 'lea %s, %s', 0), ('mov', 'r32,m32', 'mov %s, DWORD PTR %s', 32), ('add', 'm32,i', 'add DWORD PTR %s, 5', 32),
+                     ('mov', 'm8,r8', 'mov BYTE PTR %s, cl', 8), ('push', 'm32', 'push DWORD PTR %s', 32), ('movzx', 'r32,m8', 'movzx %s, BYTE PTR %s', 8),
+                     ('fld', 'm32', 'fld DWORD PTR %s', 32), ('movaps', 'xmm,m128', 'movaps xmm1, XMMWORD PTR %s', 128)]
+
+
+def memgrid(tier):
+    """Directed grid of memory operand forms: base x index (including base == index) x scale x displacement.
+    Independent of any seed; appended after the vocabulary lines so that their instances do not move."""
+    bases = [None] + R32
+    idxs = [None] + [r for r in R32 if r != 'esp']
+    disps = [None, 8, -8, 4096] if tier == 'quick' else [None, 8, -8, 4096, 127, 128, -128, -129, 2 ** 31 - 1]
+    tpl = MEMGRID_TEMPLATES[:3] if tier == 'quick' else MEMGRID_TEMPLATES
+    n = 0
+    for mn, shape, fmt, size in tpl:
+        for b in bases:
+            for i in idxs:
+                for s in ((1, 2, 4, 8) if i else (None,)):
+                    for d in disps:
+                        if b is None and i is None:
+                            continue
+                        t = b or ''
+                        if i:
+                            t += ('+' if t else '') + (i if s == 1 and b else '%s*%d' % (i, s))
+                        if d is not None:
+                            t += '%+d' % d
+                        m = '[%s]' % t
+                        line = fmt % (('edx', m) if fmt.count('%s') == 2 else (m,))
+                        cls = 'same' if (b and b == i) else ('noidx' if not i else ('nobase' if not b else 'diff'))
+                        if (b and i and s == 1 and 'ebp' in (b, i)) or (b is None and i == 'ebp' and s == 2):
+                            cls = 'ebp-role-ambiguous'      # [ebp+r] / [r+ebp], [ebp+ebp] / [ebp*2]: the other reading has another default segment (ss vs ds)
+                        yield n, line, mn, 'memgrid:%s:%s' % (shape, cls), None
+                        n += 1
+
+
 def imm_class(v, width):
     if v is None:
         return '-'
@@ -158,3 +192,6 @@ def lines(tier, seed, part, nparts):
             rng = common.rng_for(0, 'asmgen', mn, rep)
             for shape, ops, v in shapes(rng):
                 yield ('%s %s' % (mn, ops)).strip(), mn, shape, v
+    for n, line, mn, shape, v in memgrid(tier):
+        if n % nparts == part:
+            yield line, mn, shape, v
